@@ -70,7 +70,7 @@ def _init_state(M, entangled):
     return psi
 
 
-def order_case(rec, name, split):
+def order_case(rec, name, split, imag=False):
     kind, extra, order = ENGINES[name]
     M = _model('xxz')
     psi0 = _init_state(M, entangled=(kind == 'tdvp1'))
@@ -79,7 +79,7 @@ def order_case(rec, name, split):
     ED.build_full_H_from_mpo()
     ED.full_diagonalization()
     v0 = ED.mps_to_full(psi0)
-    T = 0.4
+    T = 0.4 if not imag else -0.4j          # imaginary steps: exp(-i H dt) with dt = -i tau is exp(-tau H)
     errs = []
     import tenpy.linalg.np_conserved as npc
     vT = _exact_state(ED, v0, T)
@@ -101,7 +101,7 @@ def order_case(rec, name, split):
             eng.run()
             done += chunk
             if abs(eng.evolved_time - done * dt) > 1e-12:
-                rec.violation(f'{name}:evolved_time', f'after {done} steps of {dt}: evolved_time={eng.evolved_time}',
+                rec.violation(f'{name}{"[imaginary]" if imag else ""}:evolved_time', f'after {done} steps of {dt}: evolved_time={eng.evolved_time}',
                               {'engine': name, 'dt': dt, 'steps': done})
         q1 = psi.get_total_charge(True)
         if not np.array_equal(q0, q1):
@@ -112,6 +112,8 @@ def order_case(rec, name, split):
         err = npc.norm(v / npc.norm(v) - (phase / npc.norm(vT)) * vT)
         errs.append(err)
         nrm = psi.norm
+        if imag:
+            continue          # norm and energy are not constant in imaginary time
         if abs(nrm - 1.0) > max(1e-8, 10 * err):
             rec.violation(f'{name}:norm', f'norm {nrm} after real-time evolution (state error {err})', {'engine': name, 'dt': dt})
         E_after = M.H_MPO.expectation_value(psi)
@@ -120,8 +122,8 @@ def order_case(rec, name, split):
     if errs[1] > 1e-11:
         obs = np.log2(errs[0] / errs[1])
         if obs < order - 0.45:
-            rec.violation(f'{name}:order', f'errors {errs} for dt, dt/2 give observed order {obs:.2f}, documented {order}',
-                          {'engine': name, 'T': T})
+            rec.violation(f'{name}{"[imaginary]" if imag else ""}:order', f'errors {errs} for dt, dt/2 give observed order {obs:.2f}, documented {order}',
+                          {'engine': name, 'T': str(T)})
     return {'engine': name, 'errors': errs}
 
 
@@ -180,6 +182,11 @@ def run(rec):
             ok, d = rec.guarded(f'{name}:exception', lambda: order_case(rec, name, split), {'engine': name})
             if ok:
                 rec.case((name, si), d['errors'][0] > 1e-9, sample=d)
+    for name in (['ExpMPO-II-o2'] if quick else ['ExpMPO-I', 'ExpMPO-II', 'ExpMPO-II-o2']):
+        rec.begin(f'order {name} imaginary steps')
+        ok, d = rec.guarded(f'{name}[imaginary]:exception', lambda: order_case(rec, name, splits[1], imag=True), {'engine': name, 'imaginary': True})
+        if ok:
+            rec.case((name, 'imag'), d['errors'][0] > 1e-9, sample=dict(d, imaginary=True))
     for name in (['TEBD-2', 'TDVP-2site'] if quick else ['TEBD-1', 'TEBD-2', 'TEBD-4', 'TEBD-4_opt', 'TDVP-2site']):
         for chi in ([3] if quick else [2, 3, 5]):
             for nsplit in ([2] if quick else [1, 3]):
